@@ -161,7 +161,8 @@ def gen_command_script(rnd):
     if rnd.random() < 0.5:
         lines.append("(set-logic %s)" % rnd.choice(["QF_AUFLIRA", "ALL", "QF_UFLIA", "QF_BV"]))
     if rnd.random() < 0.4:
-        lines.append("(set-option :produce-models true)")
+        lines.append(rnd.choice(["(set-option :produce-models true)", "(set-option :vf-opt |a b|)",
+                                 "(set-option :vf-opt |(x|)", "(set-option :random-seed 5)"]))
     if rnd.random() < 0.4:
         lines.append(rnd.choice(["(set-info :status sat)", "(set-info :source |a b c|)", "(set-info :smt-lib-version 2.6)"]))
     lines += declarations(forms + ints + bvs, w)
